@@ -33,7 +33,9 @@ open Gen.DistogramExpr (trimCentre trimCount inPlaceCentre inPlaceCount bulkMid 
 open Gen.DistogramFlow (trimTurns trimGuard updCountBad updFirst updLast bisectKeyCount hitTest hitCount inPlaceTry
   inPlaceTake bumpMin bumpMax)
 open Gen.DistogramOps (addGuard addMin addMax bulkTake bulkFresh bulkMin bulkMax bumpChained appendMinDiff udLeft udRight
-  udStale udLower udGap trimKeep trimPopBin trimPopDiff trimRefresh trimStored inPlaceStored)
+  udStale udLower udGap trimKeep trimPopBin trimPopDiff trimRefresh trimStored inPlaceStored udCache trimCachePick
+  trimCacheKeep appendCache insertCache searchNoCache isAppend mergeValue mergeCount computeGap loadHasDiffs trimScanIdx
+  trimScanGap loadTurns loadNoDiffs)
 
 variable {K : Type} [Add K] [Sub K] [Mul K] [Div K] [LT K] [LE K]
   [DecidableLT K] [DecidableLE K] [OfNat K 0] [OfNat K 1] [OfNat K 2]
@@ -246,29 +248,49 @@ def finishMin (st : List K × Option K × Bool) : Except String (Option K) :=
 right of it (if it is not the last bin: position `i`), then a full recomputation of `min_diff` when an
 entry equal to it was overwritten. -/
 def updateDiffs (h : Hist K) (i : Nat) : Except String (Hist K) :=
-  match h.diffs with
-  | none => .ok h
-  | some d0 =>
-    (diffBlock h.bins (d0, h.minDiff, false) (udLeft (i : Int) (h.bins.length : Int)) (i - 1)).bind fun s1 =>
-    (diffBlock h.bins s1 (udRight (i : Int) (h.bins.length : Int)) i).bind fun s2 =>
-    (finishMin s2).bind fun md =>
-    .ok { h with diffs := some s2.1, minDiff := md }
+  -- `if h.diffs is not None:` (:184) — the test is the source's (generated): under a bare truthiness test an EMPTY cache
+  -- (what `load` of a single bin creates) would be left alone
+  if udCache h.diffs then
+    match h.diffs with
+    | none => .error "TypeError"
+    | some d0 =>
+      (diffBlock h.bins (d0, h.minDiff, false) (udLeft (i : Int) (h.bins.length : Int)) (i - 1)).bind fun s1 =>
+      (diffBlock h.bins s1 (udRight (i : Int) (h.bins.length : Int)) i).bind fun s2 =>
+      (finishMin s2).bind fun md =>
+      .ok { h with diffs := some s2.1, minDiff := md }
+  else .ok h
+
+/-- `_trim` without a cache (:214): the (position, gap) pairs of `enumerate(h.bins[1:], start=1)`; `i` is the index of the
+second bin of the pair.  A negative position (Python would index from the end) does not occur for `i ≥ 1`. -/
+def scanPairs : Nat → List (K × K) → List (Nat × K)
+  | i, a :: b :: rest => ((trimScanIdx (i : Int)).toNat, trimScanGap a.1 b.1) :: scanPairs (i + 1) (b :: rest)
+  | _, _ => []
+
+/-- `min(pairs, key=itemgetter(1))[0]`: the position of the first pair with the smallest gap; `none` = `ValueError`. -/
+def scanMin : List (Nat × K) → Option Nat
+  | [] => none
+  | p :: ps => some (ps.foldl (fun m q => if q.2 < m.2 then q else m) p).1
 
 /-- The pair `_trim` merges (:211-215): the first position holding `min_diff` in the cache, or — without a
 cache — the first smallest adjacent difference. -/
 def trimIndex (h : Hist K) : Except String Nat :=
-  match h.diffs with
-  | some d =>
-    match h.minDiff with
-    | some md =>
-      match indexOf md d with
-      | some i => .ok i
+  -- `if h.diffs is not None:` (:211, the test is the source's)
+  if trimCachePick h.diffs then
+    match h.diffs with
+    | some d =>
+      match h.minDiff with
+      | some md =>
+        match indexOf md d with
+        | some i => .ok i
+        | none => .error "ValueError"
       | none => .error "ValueError"
+    | none => .error "AttributeError"
+  else
+    -- `diffs = [(i - 1, b[0] - h.bins[i - 1][0]) for i, b in enumerate(h.bins[1:], start=1)]`,
+    -- `i, _ = min(diffs, key=itemgetter(1))` (:214-215; position and gap are the source's)
+    match scanMin (scanPairs 1 h.bins) with
     | none => .error "ValueError"
-  | none =>
-    match gaps h.bins with
-    | [] => .error "ValueError"
-    | g => .ok (argminFirst g)
+    | some i => .ok i
 
 /-- One turn of the `while` loop of `_trim` (:211-224). -/
 def trimStep (h : Hist K) : Except String (Hist K) :=
@@ -278,14 +300,17 @@ def trimStep (h : Hist K) : Except String (Hist K) :=
   match h.bins[trimKeep i]?, h.bins[trimPopBin i]? with
   | some (v1, f1), some (v2, f2) =>
     let bins := (h.bins.eraseIdx (trimPopBin i)).set (trimKeep i) (centroid v1 f1 v2 f2, trimCount v1 f1 v2 f2)
-    match h.diffs with
-    | some d =>
-      if d.length ≤ trimPopDiff i then .error "IndexError" else
-      (updateDiffs { h with bins := bins, diffs := some (d.eraseIdx (trimPopDiff i)) } (trimRefresh i)).bind fun h1 =>
-      match h1.diffs.bind listMin with
-      | some m => .ok { h1 with minDiff := some m }
-      | none => .error "ValueError"
-    | none => .ok { h with bins := bins }
+    -- `if h.diffs is not None:` (:223, the test is the source's)
+    if trimCacheKeep h.diffs then
+      match h.diffs with
+      | some d =>
+        if d.length ≤ trimPopDiff i then .error "IndexError" else
+        (updateDiffs { h with bins := bins, diffs := some (d.eraseIdx (trimPopDiff i)) } (trimRefresh i)).bind fun h1 =>
+        match h1.diffs.bind listMin with
+        | some m => .ok { h1 with minDiff := some m }
+        | none => .error "ValueError"
+      | none => .error "AttributeError"
+    else .ok { h with bins := bins }
   | _, _ => .error "IndexError"
 
 /-- `_trim(h)` (:209-226); `fuel` bounds the `while` loop (one bin disappears per turn). -/
@@ -293,9 +318,15 @@ def trim : Nat → Hist K → Except String (Hist K)
   | 0, h => .ok h
   | fuel + 1, h => if trimGuard h.bins.length h.cap then (trimStep h).bind (trim fuel) else .ok h
 
-/-- `_compute_diffs(h)` (:240-244). -/
+/-- the list comprehension of `_compute_diffs` -/
+def computeGaps : List (K × K) → List K
+  | a :: b :: rest => computeGap a.1 b.1 :: computeGaps (b :: rest)
+  | _ => []
+
+/-- `_compute_diffs(h)` (:246-250): `[v2 - v1 for (v1, _), (v2, _) in zip(h.bins[:-1], h.bins[1:])]` (the gap is the
+source's), `h.min_diff = min(diffs)`. -/
 def computeDiffs (h : Hist K) : Except String (Hist K) :=
-  let d := gaps h.bins
+  let d := computeGaps h.bins
   match listMin d with
   | some m => .ok { h with diffs := some d, minDiff := some m }
   | none => .error "ValueError"
@@ -330,20 +361,25 @@ def trimInPlace (h : Hist K) (value count : K) (ib : Nat) : Except String (Hist 
 
 /-- The insertion of `update` (:301-311) with its cache bookkeeping. -/
 def insertBin (h : Hist K) (neg : Bool) (idx : Nat) (value count : K) : Except String (Hist K) :=
-  if neg then
-    match h.diffs, h.bins.getLast? with
-    | some d, some bl =>
-      let diff := value - bl.1
-      .ok { h with bins := h.bins ++ [(value, count)], diffs := some (d ++ [diff]),
-                   minDiff := some (match h.minDiff with
-                                    | none => diff
-                                    | some m => appendMinDiff m diff) }
-    | _, _ => .ok { h with bins := h.bins ++ [(value, count)] }
+  -- `if index == -1:` (:309) and the two `if h.diffs is not None:` (:311, :317) are the source's tests
+  if isAppend (if neg then -1 else (idx : Int)) then
+    if appendCache h.diffs then
+      match h.diffs, h.bins.getLast? with
+      | some d, some bl =>
+        let diff := value - bl.1
+        .ok { h with bins := h.bins ++ [(value, count)], diffs := some (d ++ [diff]),
+                     minDiff := some (match h.minDiff with
+                                      | none => diff
+                                      | some m => appendMinDiff m diff) }
+      | _, _ => .ok { h with bins := h.bins ++ [(value, count)] }
+    else .ok { h with bins := h.bins ++ [(value, count)] }
   else
-    match h.diffs with
-    | some d =>
-      updateDiffs { h with bins := h.bins.insertIdx idx (value, count), diffs := some (d.insertIdx idx (0 : K)) } idx
-    | none => .ok { h with bins := h.bins.insertIdx idx (value, count) }
+    if insertCache h.diffs then
+      match h.diffs with
+      | some d =>
+        updateDiffs { h with bins := h.bins.insertIdx idx (value, count), diffs := some (d.insertIdx idx (0 : K)) } idx
+      | none => .ok { h with bins := h.bins.insertIdx idx (value, count) }
+    else .ok { h with bins := h.bins.insertIdx idx (value, count) }
 
 /-- `h.min` / `h.max` after an insertion (:318-321): two statements.  `bumpChained` (generated) says whether the second
 is an `elif` of the first — then the maximum is left alone whenever the minimum moved. -/
@@ -367,7 +403,8 @@ def insertTrim (h : Hist K) (neg : Bool) (idx : Nat) (value count : K) : Except 
 /-- everything after the exact-hit test: the in-place shortcut (:295-299), else insert + trim -/
 def afterHit (h : Hist K) (neg : Bool) (idx : Nat) (value count : K) : Except String (Hist K) :=
   if inPlaceTry (if neg then -1 else (idx : Int)) h.bins.length h.cap then
-    (if h.diffs.isNone then computeDiffs h else .ok h).bind fun h1 =>
+    -- `if h.diffs is None: h.diffs = _compute_diffs(h)` (:254, the test is the source's)
+    (if searchNoCache h.diffs then computeDiffs h else .ok h).bind fun h1 =>
     (searchInPlaceIndex h1 value idx).bind fun r =>
     match r with
     | some ib =>
@@ -390,7 +427,8 @@ def update (h : Hist K) (value count : K) : Except String (Hist K) :=
 
 /-- The bare `merge(h1, h2)` (:320-341): `h1` is updated with every bin of `h2`. -/
 def merge (h : Hist K) (other : List (K × K)) : Except String (Hist K) :=
-  other.foldlM (fun acc b => update acc b.1 b.2) h
+  -- `for value, counts in h2.bins: h = update(h, value, counts)`: which component goes where is the source's
+  other.foldlM (fun acc b => update acc (mergeValue b.1 b.2) (mergeCount b.1 b.2)) h
 
 /-- `Distogram.__add__` (:78-84), as repaired: an empty right operand adds nothing.  The test on the operand and the
 two bound expressions are the source's (generated); `min(None, x)` is Python's `TypeError`. -/
@@ -418,15 +456,16 @@ def loadDiffsFrom (prev : K) : List (K × K) → List K
   | a :: b :: rest => loadDiff prev a.1 b.1 :: loadDiffsFrom a.1 (b :: rest)
   | _ => []
 
-/-- the loop of `load`: `i` runs over `range(len(bins) - 1)`; `bins[i - 1]` at `i = 0` is the last bin. -/
+/-- the loop of `load`: `i` runs over `range(len(bins) - 1)` (the bound is the source's, generated); `bins[i - 1]` at `i = 0` is the last bin. -/
 def loadDiffs (bins : List (K × K)) : List K :=
   match bins.getLast? with
-  | some bl => loadDiffsFrom bl.1 bins
+  | some bl => (loadDiffsFrom bl.1 bins).take (loadTurns (bins.length : Int)).toNat
   | none => []
 
 def load (bins : List (K × K)) (mn mx : Option K) : Hist K :=
   let d := loadDiffs bins
-  { bins := bins, min := mn, max := mx, diffs := some d, minDiff := listMin d,
+  -- `if dgram.diffs: dgram.min_diff = min(dgram.diffs) else: dgram.min_diff = float("inf")` (:142-145, the test is the source's)
+  { bins := bins, min := mn, max := mx, diffs := some d, minDiff := if loadHasDiffs d then listMin d else loadNoDiffs,
     cap := Gen.Distogram.binCount }
 
 def Hist.toR (h : Hist K) : RState K := { bins := h.bins, min := h.min, max := h.max, cap := h.cap }
